@@ -83,6 +83,9 @@ SNIPPETS = [
     "class V:\n    def __init__(self, n):\n        self.n = n\n    def __and__(self, o):\n        return V(min(self.n, o.n))\n    def __or__(self, o):\n        return V(max(self.n, o.n))\n    def __xor__(self, o):\n        return V(self.n ^ o.n)\nreturn (V(3) & V(5)).n, (V(3) | V(5)).n, (V(3) ^ V(5) & V(1)).n",
     "class Base:\n    def hello(self):\n        return 'base'\nclass D(Base):\n    def __init__(self, x):\n        self.x = x\n    def twice(self):\n        return 2 * self.x\nreturn D(4).twice(), D(1).x",
     "def rename(u, d):\n    return ('module', u, d)\nclass M:\n    def rename(self, u):\n        return rename(u, self.tag)\n    def __init__(self):\n        self.tag = 't'\nreturn M().rename(3)",
+    "class P:\n    def __init__(self, xs):\n        self.xs = xs\n    @property\n    def first(self):\n        return self.xs[0]\n    def __contains__(self, x):\n        return x in self.xs\n    def __len__(self):\n        return len(self.xs) + 10\n    def __eq__(self, o):\n        return isinstance(o, P) and self.xs == o.xs\n    def __iter__(self):\n        return iter(self.xs)\np = P([3, 4])\nreturn p.first, 3 in p, 5 not in p, len(p), p == P([3, 4]), p != P([1]), p == 7, [x for x in p]",
+    "class A:\n    pass\nclass B:\n    pass\ndef kind(v):\n    match v:\n        case str() | bool():\n            return 's'\n        case A():\n            return 'a'\n        case _:\n            return '?'\nreturn kind(A()), kind(B()), kind('x'), kind(True), kind(3), isinstance(A(), A), isinstance(B(), A), isinstance(3, A), isinstance(A(), (int, A)), isinstance(A(), int)",
+    "class N:\n    def __init__(self, n):\n        self.n = n\n    def __int__(self):\n        return self.n\n    def __invert__(self):\n        return N(-self.n)\n    def __len__(self):\n        return self.n\n    def __neg__(self):\n        return N(self.n + 100)\nz = N(0)\nk = N(2)\nreturn int(k), int(~k), (-k).n, bool(z), bool(k), ('t' if z else 'f'), ('t' if k else 'f'), not z, (z or 5), (k and 6), [x for x in (1, 2) if k]",
     "class Swallow:\n    def __enter__(self):\n        return None\n    def __exit__(self, t, v, tb):\n        return t is not None\nwith Swallow():\n    raise KeyError('k')\nreturn 'after'",
     "xs = [1, 2, 3, 4]\nreturn xs[:-1], xs[1:], xs[::2], 'abcd'[1:3], (1, 2, 3)[:2]",
     "def f(a, b=0, **kw):\n    return a, b, kw\nd = dict(b=2, c=3)\nreturn f(1, **d), f(1, **{})",
